@@ -137,10 +137,13 @@ def gen_count(rng, uni: qgen.Universe, ev: str, uses: List[Tuple[str, str]], nva
     return src + ".Count()", ["count", [name.lower(), ct, bank, arrow, preds, ["count"]]]
 
 
-def gen_ex(rng, uni, ev, d, uses, nvar, top=False, cmp_ok=False):
+def gen_ex(rng, uni, ev, d, uses, nvar, top=False, cmp_ok=False, arith2=False, funs=False):
+    """Event-level expression.  arith2: true division, unary minus and floating literals may appear; funs: math
+    functions too (only where the value is not compared: a comparison of an uninterpreted value cannot be executed)."""
     k = rng.random()
     if d <= 0 or k < 0.5:
-        if rng.random() < 0.15:
+        j = rng.random()
+        if j < 0.15:
             # an element by position: e.Coll("bank")[i].m() - bounds-checked, undefined when the collection is shorter
             name = rng.choice(list(uni.colls))
             bank = rng.choice(["b1", "b2"])
@@ -149,20 +152,41 @@ def gen_ex(rng, uni, ev, d, uses, nvar, top=False, cmp_ok=False):
             i = rng.choice([0, 0, 1, 2])
             m = rng.choice(["pt", "eta", "phi", "m"])
             return f'{ev}.{name}("{bank}")[{i}].{m}()', ["idx", name.lower(), ct, bank, uni.backend == "atlas", i, m]
-        if top or rng.random() < 0.8:
+        if top or j < 0.8:
             return gen_count(rng, uni, ev, uses, nvar)
+        if arith2 and j < 0.9:
+            t = rng.choice(["0.5", "1.5", "2.0", "30.0"])
+            fr = Fraction(t)
+            return t, ["dbl", t, fr.numerator, fr.denominator]
         z = rng.choice([0, 1, 2, 3])
         return str(z), ["int", z]
-    a, sa = gen_ex(rng, uni, ev, d - 1, uses, nvar, top=True)
-    b, sb = gen_ex(rng, uni, ev, d - 1, uses, nvar)
     op = rng.choice(["+", "-", "*", "+"]) if not cmp_ok else rng.choice(["+", "-", "*", ">", "==", "<="])
+    if arith2 and op in "+-*":
+        j = rng.random()
+        if j < 0.10:
+            a, sa = gen_ex(rng, uni, ev, d - 1, uses, nvar, top=True, arith2=True, funs=funs)
+            return f"(-{a})", ["neg", sa]
+        if j < 0.28:
+            a, sa = gen_ex(rng, uni, ev, d - 1, uses, nvar, top=True, arith2=True, funs=funs)
+            if rng.random() < 0.7:
+                b, sb = rng.choice([("2", ["int", 2]), ("3", ["int", 3]), ("0.5", ["dbl", "0.5", 1, 2])])
+            else:
+                b, sb = gen_ex(rng, uni, ev, d - 1, uses, nvar, arith2=True, funs=funs)
+            return f"({a}/{b})", ["div", sa, sb]
+        if funs and j < 0.40:
+            a, sa = gen_ex(rng, uni, ev, d - 1, uses, nvar, top=True, arith2=True, funs=True)
+            f = rng.choice(["sqrt", "sin", "cos", "exp", "log", "tanh"])
+            return f"{f}({a})", ["fun", "std::" + f, sa]
+    sub_funs = funs and op in "+-*"
+    a, sa = gen_ex(rng, uni, ev, d - 1, uses, nvar, top=True, arith2=arith2, funs=sub_funs)
+    b, sb = gen_ex(rng, uni, ev, d - 1, uses, nvar, arith2=arith2, funs=sub_funs)
     return f"({a}{op}{b})" if op in "+-*" else f"({a} {op} {b})", ["bin", op, sa, sb]
 
 
 def gen(rng: random.Random, uni: qgen.Universe, depth: int):
     """-> (query source, ex sexp, uses)"""
     uses: List[Tuple[str, str]] = []
-    src, sx = gen_ex(rng, uni, "e", depth, uses, [0], top=True, cmp_ok=True)
+    src, sx = gen_ex(rng, uni, "e", depth, uses, [0], top=True, cmp_ok=True, arith2=True, funs=True)
     if src.startswith("(") and src.endswith(")"):
         src = src[1:-1]
     return f"ds.Select(lambda e: {src})", sx, uses
@@ -227,7 +251,7 @@ def gen_row(rng: random.Random, uni: qgen.Universe, depth: int):
     for _ in range(n):
         k = rng.random()
         if k < 0.42:
-            s, sx = gen_ex(rng, uni, "e", depth, uses, nvar, top=True, cmp_ok=True)
+            s, sx = gen_ex(rng, uni, "e", depth, uses, nvar, top=True, cmp_ok=True, arith2=True, funs=True)
             if s.startswith("(") and s.endswith(")") and sx[0] == "bin":
                 pass
             cols.append((s, ["scalar", sx]))
@@ -281,8 +305,8 @@ def gen_query_f1(rng: random.Random, uni: qgen.Universe, depth: int):
     if rng.random() < 0.55:
         # the condition is a comparison between event-level expressions (the implementation refuses a filter
         # that is not boolean-typed)
-        a, sa = gen_ex(rng, uni, "e", rng.choice([0, 1]), uses, nvar, top=True)
-        b, sb = gen_ex(rng, uni, "e", 0, uses, nvar)
+        a, sa = gen_ex(rng, uni, "e", rng.choice([0, 1, 1]), uses, nvar, top=True, arith2=True)
+        b, sb = gen_ex(rng, uni, "e", 0, uses, nvar, arith2=True)
         op = rng.choice(["<", "<=", ">", ">=", "==", "!="])
         cs, cx = f"{a} {op} {b}", ["bin", op, sa, sb]
         src += f".Where(lambda e: {cs})"
